@@ -43,6 +43,9 @@ class DeepONet(Model):
         super().__init__(input_space=trunk_net.input_space, output_space=output_space)
         self.trunk = trunk_net
         self.branch = branch_net
+        # (id of the function set, its parameter batch, branch output): for which input
+        # functions the stored output of the branch net was computed in _forward_branch
+        self._branch_source = None
         self._finalize_trunk_and_branch(output_space, output_neurons)
 
     def _check_trunk_and_branch_correct(self, trunk_net, branch_net):
@@ -90,13 +93,34 @@ class DeepONet(Model):
 
     def _forward_branch(self, function_set, iteration_num=-1, device="cpu"):
         """Branch evaluation for training."""
-        if iteration_num != function_set.current_iteration_num:
+        new_functions = iteration_num != function_set.current_iteration_num
+        if new_functions:
             function_set.current_iteration_num = iteration_num
             function_set.sample_params(device=device)
+        # Within one iteration the functions (and the branch output) are shared by all
+        # conditions that use this function set. The stored branch output can only be
+        # reused if this model computed it from exactly these functions: it may belong
+        # to another function set (several conditions on one model), may have been
+        # replaced by fix_branch_input, or the functions were sampled by another model
+        # that shares the function set.
+        source = self._branch_source
+        up_to_date = (
+            not new_functions
+            and source is not None
+            and source[0] == id(function_set)
+            and source[1] is function_set.param_batch
+            and source[2] is self.branch.current_out
+        )
+        if not up_to_date:
             discrete_fn_batch = self.branch._discretize_function_set(
                 function_set, device=device
             )
             self.branch(discrete_fn_batch)
+            self._branch_source = (
+                id(function_set),
+                function_set.param_batch,
+                self.branch.current_out,
+            )
 
     def fix_branch_input(self, function, device="cpu"):
         """Fixes the branch net for a given function. this function will then be used
